@@ -2,7 +2,8 @@ import MiniconfVerif.Lemmas.GenTieValue
 
 /-! GENERATED ONCE by tools/mk_tuple_value_ties.py (committed): `Tree.walk` at a tuple (a `numbered n` node whose fields
 carry no attributes) agrees with `TreeSerialize` / `TreeDeserialize` / `TreeAny` of the n-tuples as translated from the
-`impl_tuple!` body of impls.rs, for n = 1..8. -/
+`impl_tuple!` body of impls.rs, for n = 1..8, and of `Range`, `RangeFrom`, `RangeTo` (and `TreeSerialize` of
+`RangeInclusive`) at their `named ["start", "end"]` / `["start"]` / `["end"]` nodes. -/
 set_option linter.unusedSimpArgs false
 namespace MiniconfVerif.GenTie
 open MiniconfVerif MiniconfVerif.Gen MiniconfVerif.Gen.Core
@@ -23,7 +24,7 @@ theorem tuple1_ser_tie (io : Io) (elems : List Tree) (hlen : elems.length = 1) (
   | ok p =>
     obtain ⟨i, ks'⟩ := p
     have hi := next_lt ks _ i ks' hnext
-    simp only [Lookup.len] at hi
+    simp only [Lookup.len, List.length_cons, List.length_nil] at hi
     have hget : elems[i]? = some elems[i] := List.getElem?_eq_getElem (by omega)
     obtain rfl : i = 0 := by omega
     simp only [applyAtR, hget, goFld_plain io .ser elems _ ks' _ hget]
@@ -46,7 +47,7 @@ theorem tuple1_de_tie (io : Io) (elems : List Tree) (hlen : elems.length = 1) (k
   | ok p =>
     obtain ⟨i, ks'⟩ := p
     have hi := next_lt ks _ i ks' hnext
-    simp only [Lookup.len] at hi
+    simp only [Lookup.len, List.length_cons, List.length_nil] at hi
     have hget : elems[i]? = some elems[i] := List.getElem?_eq_getElem (by omega)
     obtain rfl : i = 0 := by omega
     simp only [applyAt, hget, goFld_plain io .de elems _ ks' _ hget]
@@ -68,7 +69,7 @@ theorem tuple1_ref_tie (io : Io) (elems : List Tree) (hlen : elems.length = 1) (
   | ok p =>
     obtain ⟨i, ks'⟩ := p
     have hi := next_lt ks _ i ks' hnext
-    simp only [Lookup.len] at hi
+    simp only [Lookup.len, List.length_cons, List.length_nil] at hi
     have hget : elems[i]? = some elems[i] := List.getElem?_eq_getElem (by omega)
     obtain rfl : i = 0 := by omega
     simp only [applyAtR, hget, goFld_plain io .refAny elems _ ks' _ hget]
@@ -95,7 +96,7 @@ theorem tuple1_mut_tie (io : Io) (elems : List Tree) (hlen : elems.length = 1) (
   | ok p =>
     obtain ⟨i, ks'⟩ := p
     have hi := next_lt ks _ i ks' hnext
-    simp only [Lookup.len] at hi
+    simp only [Lookup.len, List.length_cons, List.length_nil] at hi
     have hget : elems[i]? = some elems[i] := List.getElem?_eq_getElem (by omega)
     obtain rfl : i = 0 := by omega
     simp only [applyAt, hget, goFld_plain io .mutAny elems _ ks' _ hget]
@@ -121,7 +122,7 @@ theorem tuple2_ser_tie (io : Io) (elems : List Tree) (hlen : elems.length = 2) (
   | ok p =>
     obtain ⟨i, ks'⟩ := p
     have hi := next_lt ks _ i ks' hnext
-    simp only [Lookup.len] at hi
+    simp only [Lookup.len, List.length_cons, List.length_nil] at hi
     have hget : elems[i]? = some elems[i] := List.getElem?_eq_getElem (by omega)
     have hi' : i = 0 ∨ i = 1 := by omega
     rcases hi' with rfl | rfl
@@ -147,7 +148,7 @@ theorem tuple2_de_tie (io : Io) (elems : List Tree) (hlen : elems.length = 2) (k
   | ok p =>
     obtain ⟨i, ks'⟩ := p
     have hi := next_lt ks _ i ks' hnext
-    simp only [Lookup.len] at hi
+    simp only [Lookup.len, List.length_cons, List.length_nil] at hi
     have hget : elems[i]? = some elems[i] := List.getElem?_eq_getElem (by omega)
     have hi' : i = 0 ∨ i = 1 := by omega
     rcases hi' with rfl | rfl
@@ -172,7 +173,7 @@ theorem tuple2_ref_tie (io : Io) (elems : List Tree) (hlen : elems.length = 2) (
   | ok p =>
     obtain ⟨i, ks'⟩ := p
     have hi := next_lt ks _ i ks' hnext
-    simp only [Lookup.len] at hi
+    simp only [Lookup.len, List.length_cons, List.length_nil] at hi
     have hget : elems[i]? = some elems[i] := List.getElem?_eq_getElem (by omega)
     have hi' : i = 0 ∨ i = 1 := by omega
     rcases hi' with rfl | rfl
@@ -206,7 +207,7 @@ theorem tuple2_mut_tie (io : Io) (elems : List Tree) (hlen : elems.length = 2) (
   | ok p =>
     obtain ⟨i, ks'⟩ := p
     have hi := next_lt ks _ i ks' hnext
-    simp only [Lookup.len] at hi
+    simp only [Lookup.len, List.length_cons, List.length_nil] at hi
     have hget : elems[i]? = some elems[i] := List.getElem?_eq_getElem (by omega)
     have hi' : i = 0 ∨ i = 1 := by omega
     rcases hi' with rfl | rfl
@@ -239,7 +240,7 @@ theorem tuple3_ser_tie (io : Io) (elems : List Tree) (hlen : elems.length = 3) (
   | ok p =>
     obtain ⟨i, ks'⟩ := p
     have hi := next_lt ks _ i ks' hnext
-    simp only [Lookup.len] at hi
+    simp only [Lookup.len, List.length_cons, List.length_nil] at hi
     have hget : elems[i]? = some elems[i] := List.getElem?_eq_getElem (by omega)
     have hi' : i = 0 ∨ i = 1 ∨ i = 2 := by omega
     rcases hi' with rfl | rfl | rfl
@@ -267,7 +268,7 @@ theorem tuple3_de_tie (io : Io) (elems : List Tree) (hlen : elems.length = 3) (k
   | ok p =>
     obtain ⟨i, ks'⟩ := p
     have hi := next_lt ks _ i ks' hnext
-    simp only [Lookup.len] at hi
+    simp only [Lookup.len, List.length_cons, List.length_nil] at hi
     have hget : elems[i]? = some elems[i] := List.getElem?_eq_getElem (by omega)
     have hi' : i = 0 ∨ i = 1 ∨ i = 2 := by omega
     rcases hi' with rfl | rfl | rfl
@@ -294,7 +295,7 @@ theorem tuple3_ref_tie (io : Io) (elems : List Tree) (hlen : elems.length = 3) (
   | ok p =>
     obtain ⟨i, ks'⟩ := p
     have hi := next_lt ks _ i ks' hnext
-    simp only [Lookup.len] at hi
+    simp only [Lookup.len, List.length_cons, List.length_nil] at hi
     have hget : elems[i]? = some elems[i] := List.getElem?_eq_getElem (by omega)
     have hi' : i = 0 ∨ i = 1 ∨ i = 2 := by omega
     rcases hi' with rfl | rfl | rfl
@@ -334,7 +335,7 @@ theorem tuple3_mut_tie (io : Io) (elems : List Tree) (hlen : elems.length = 3) (
   | ok p =>
     obtain ⟨i, ks'⟩ := p
     have hi := next_lt ks _ i ks' hnext
-    simp only [Lookup.len] at hi
+    simp only [Lookup.len, List.length_cons, List.length_nil] at hi
     have hget : elems[i]? = some elems[i] := List.getElem?_eq_getElem (by omega)
     have hi' : i = 0 ∨ i = 1 ∨ i = 2 := by omega
     rcases hi' with rfl | rfl | rfl
@@ -373,7 +374,7 @@ theorem tuple4_ser_tie (io : Io) (elems : List Tree) (hlen : elems.length = 4) (
   | ok p =>
     obtain ⟨i, ks'⟩ := p
     have hi := next_lt ks _ i ks' hnext
-    simp only [Lookup.len] at hi
+    simp only [Lookup.len, List.length_cons, List.length_nil] at hi
     have hget : elems[i]? = some elems[i] := List.getElem?_eq_getElem (by omega)
     have hi' : i = 0 ∨ i = 1 ∨ i = 2 ∨ i = 3 := by omega
     rcases hi' with rfl | rfl | rfl | rfl
@@ -403,7 +404,7 @@ theorem tuple4_de_tie (io : Io) (elems : List Tree) (hlen : elems.length = 4) (k
   | ok p =>
     obtain ⟨i, ks'⟩ := p
     have hi := next_lt ks _ i ks' hnext
-    simp only [Lookup.len] at hi
+    simp only [Lookup.len, List.length_cons, List.length_nil] at hi
     have hget : elems[i]? = some elems[i] := List.getElem?_eq_getElem (by omega)
     have hi' : i = 0 ∨ i = 1 ∨ i = 2 ∨ i = 3 := by omega
     rcases hi' with rfl | rfl | rfl | rfl
@@ -432,7 +433,7 @@ theorem tuple4_ref_tie (io : Io) (elems : List Tree) (hlen : elems.length = 4) (
   | ok p =>
     obtain ⟨i, ks'⟩ := p
     have hi := next_lt ks _ i ks' hnext
-    simp only [Lookup.len] at hi
+    simp only [Lookup.len, List.length_cons, List.length_nil] at hi
     have hget : elems[i]? = some elems[i] := List.getElem?_eq_getElem (by omega)
     have hi' : i = 0 ∨ i = 1 ∨ i = 2 ∨ i = 3 := by omega
     rcases hi' with rfl | rfl | rfl | rfl
@@ -478,7 +479,7 @@ theorem tuple4_mut_tie (io : Io) (elems : List Tree) (hlen : elems.length = 4) (
   | ok p =>
     obtain ⟨i, ks'⟩ := p
     have hi := next_lt ks _ i ks' hnext
-    simp only [Lookup.len] at hi
+    simp only [Lookup.len, List.length_cons, List.length_nil] at hi
     have hget : elems[i]? = some elems[i] := List.getElem?_eq_getElem (by omega)
     have hi' : i = 0 ∨ i = 1 ∨ i = 2 ∨ i = 3 := by omega
     rcases hi' with rfl | rfl | rfl | rfl
@@ -523,7 +524,7 @@ theorem tuple5_ser_tie (io : Io) (elems : List Tree) (hlen : elems.length = 5) (
   | ok p =>
     obtain ⟨i, ks'⟩ := p
     have hi := next_lt ks _ i ks' hnext
-    simp only [Lookup.len] at hi
+    simp only [Lookup.len, List.length_cons, List.length_nil] at hi
     have hget : elems[i]? = some elems[i] := List.getElem?_eq_getElem (by omega)
     have hi' : i = 0 ∨ i = 1 ∨ i = 2 ∨ i = 3 ∨ i = 4 := by omega
     rcases hi' with rfl | rfl | rfl | rfl | rfl
@@ -555,7 +556,7 @@ theorem tuple5_de_tie (io : Io) (elems : List Tree) (hlen : elems.length = 5) (k
   | ok p =>
     obtain ⟨i, ks'⟩ := p
     have hi := next_lt ks _ i ks' hnext
-    simp only [Lookup.len] at hi
+    simp only [Lookup.len, List.length_cons, List.length_nil] at hi
     have hget : elems[i]? = some elems[i] := List.getElem?_eq_getElem (by omega)
     have hi' : i = 0 ∨ i = 1 ∨ i = 2 ∨ i = 3 ∨ i = 4 := by omega
     rcases hi' with rfl | rfl | rfl | rfl | rfl
@@ -586,7 +587,7 @@ theorem tuple5_ref_tie (io : Io) (elems : List Tree) (hlen : elems.length = 5) (
   | ok p =>
     obtain ⟨i, ks'⟩ := p
     have hi := next_lt ks _ i ks' hnext
-    simp only [Lookup.len] at hi
+    simp only [Lookup.len, List.length_cons, List.length_nil] at hi
     have hget : elems[i]? = some elems[i] := List.getElem?_eq_getElem (by omega)
     have hi' : i = 0 ∨ i = 1 ∨ i = 2 ∨ i = 3 ∨ i = 4 := by omega
     rcases hi' with rfl | rfl | rfl | rfl | rfl
@@ -638,7 +639,7 @@ theorem tuple5_mut_tie (io : Io) (elems : List Tree) (hlen : elems.length = 5) (
   | ok p =>
     obtain ⟨i, ks'⟩ := p
     have hi := next_lt ks _ i ks' hnext
-    simp only [Lookup.len] at hi
+    simp only [Lookup.len, List.length_cons, List.length_nil] at hi
     have hget : elems[i]? = some elems[i] := List.getElem?_eq_getElem (by omega)
     have hi' : i = 0 ∨ i = 1 ∨ i = 2 ∨ i = 3 ∨ i = 4 := by omega
     rcases hi' with rfl | rfl | rfl | rfl | rfl
@@ -689,7 +690,7 @@ theorem tuple6_ser_tie (io : Io) (elems : List Tree) (hlen : elems.length = 6) (
   | ok p =>
     obtain ⟨i, ks'⟩ := p
     have hi := next_lt ks _ i ks' hnext
-    simp only [Lookup.len] at hi
+    simp only [Lookup.len, List.length_cons, List.length_nil] at hi
     have hget : elems[i]? = some elems[i] := List.getElem?_eq_getElem (by omega)
     have hi' : i = 0 ∨ i = 1 ∨ i = 2 ∨ i = 3 ∨ i = 4 ∨ i = 5 := by omega
     rcases hi' with rfl | rfl | rfl | rfl | rfl | rfl
@@ -723,7 +724,7 @@ theorem tuple6_de_tie (io : Io) (elems : List Tree) (hlen : elems.length = 6) (k
   | ok p =>
     obtain ⟨i, ks'⟩ := p
     have hi := next_lt ks _ i ks' hnext
-    simp only [Lookup.len] at hi
+    simp only [Lookup.len, List.length_cons, List.length_nil] at hi
     have hget : elems[i]? = some elems[i] := List.getElem?_eq_getElem (by omega)
     have hi' : i = 0 ∨ i = 1 ∨ i = 2 ∨ i = 3 ∨ i = 4 ∨ i = 5 := by omega
     rcases hi' with rfl | rfl | rfl | rfl | rfl | rfl
@@ -756,7 +757,7 @@ theorem tuple6_ref_tie (io : Io) (elems : List Tree) (hlen : elems.length = 6) (
   | ok p =>
     obtain ⟨i, ks'⟩ := p
     have hi := next_lt ks _ i ks' hnext
-    simp only [Lookup.len] at hi
+    simp only [Lookup.len, List.length_cons, List.length_nil] at hi
     have hget : elems[i]? = some elems[i] := List.getElem?_eq_getElem (by omega)
     have hi' : i = 0 ∨ i = 1 ∨ i = 2 ∨ i = 3 ∨ i = 4 ∨ i = 5 := by omega
     rcases hi' with rfl | rfl | rfl | rfl | rfl | rfl
@@ -814,7 +815,7 @@ theorem tuple6_mut_tie (io : Io) (elems : List Tree) (hlen : elems.length = 6) (
   | ok p =>
     obtain ⟨i, ks'⟩ := p
     have hi := next_lt ks _ i ks' hnext
-    simp only [Lookup.len] at hi
+    simp only [Lookup.len, List.length_cons, List.length_nil] at hi
     have hget : elems[i]? = some elems[i] := List.getElem?_eq_getElem (by omega)
     have hi' : i = 0 ∨ i = 1 ∨ i = 2 ∨ i = 3 ∨ i = 4 ∨ i = 5 := by omega
     rcases hi' with rfl | rfl | rfl | rfl | rfl | rfl
@@ -871,7 +872,7 @@ theorem tuple7_ser_tie (io : Io) (elems : List Tree) (hlen : elems.length = 7) (
   | ok p =>
     obtain ⟨i, ks'⟩ := p
     have hi := next_lt ks _ i ks' hnext
-    simp only [Lookup.len] at hi
+    simp only [Lookup.len, List.length_cons, List.length_nil] at hi
     have hget : elems[i]? = some elems[i] := List.getElem?_eq_getElem (by omega)
     have hi' : i = 0 ∨ i = 1 ∨ i = 2 ∨ i = 3 ∨ i = 4 ∨ i = 5 ∨ i = 6 := by omega
     rcases hi' with rfl | rfl | rfl | rfl | rfl | rfl | rfl
@@ -907,7 +908,7 @@ theorem tuple7_de_tie (io : Io) (elems : List Tree) (hlen : elems.length = 7) (k
   | ok p =>
     obtain ⟨i, ks'⟩ := p
     have hi := next_lt ks _ i ks' hnext
-    simp only [Lookup.len] at hi
+    simp only [Lookup.len, List.length_cons, List.length_nil] at hi
     have hget : elems[i]? = some elems[i] := List.getElem?_eq_getElem (by omega)
     have hi' : i = 0 ∨ i = 1 ∨ i = 2 ∨ i = 3 ∨ i = 4 ∨ i = 5 ∨ i = 6 := by omega
     rcases hi' with rfl | rfl | rfl | rfl | rfl | rfl | rfl
@@ -942,7 +943,7 @@ theorem tuple7_ref_tie (io : Io) (elems : List Tree) (hlen : elems.length = 7) (
   | ok p =>
     obtain ⟨i, ks'⟩ := p
     have hi := next_lt ks _ i ks' hnext
-    simp only [Lookup.len] at hi
+    simp only [Lookup.len, List.length_cons, List.length_nil] at hi
     have hget : elems[i]? = some elems[i] := List.getElem?_eq_getElem (by omega)
     have hi' : i = 0 ∨ i = 1 ∨ i = 2 ∨ i = 3 ∨ i = 4 ∨ i = 5 ∨ i = 6 := by omega
     rcases hi' with rfl | rfl | rfl | rfl | rfl | rfl | rfl
@@ -1006,7 +1007,7 @@ theorem tuple7_mut_tie (io : Io) (elems : List Tree) (hlen : elems.length = 7) (
   | ok p =>
     obtain ⟨i, ks'⟩ := p
     have hi := next_lt ks _ i ks' hnext
-    simp only [Lookup.len] at hi
+    simp only [Lookup.len, List.length_cons, List.length_nil] at hi
     have hget : elems[i]? = some elems[i] := List.getElem?_eq_getElem (by omega)
     have hi' : i = 0 ∨ i = 1 ∨ i = 2 ∨ i = 3 ∨ i = 4 ∨ i = 5 ∨ i = 6 := by omega
     rcases hi' with rfl | rfl | rfl | rfl | rfl | rfl | rfl
@@ -1069,7 +1070,7 @@ theorem tuple8_ser_tie (io : Io) (elems : List Tree) (hlen : elems.length = 8) (
   | ok p =>
     obtain ⟨i, ks'⟩ := p
     have hi := next_lt ks _ i ks' hnext
-    simp only [Lookup.len] at hi
+    simp only [Lookup.len, List.length_cons, List.length_nil] at hi
     have hget : elems[i]? = some elems[i] := List.getElem?_eq_getElem (by omega)
     have hi' : i = 0 ∨ i = 1 ∨ i = 2 ∨ i = 3 ∨ i = 4 ∨ i = 5 ∨ i = 6 ∨ i = 7 := by omega
     rcases hi' with rfl | rfl | rfl | rfl | rfl | rfl | rfl | rfl
@@ -1107,7 +1108,7 @@ theorem tuple8_de_tie (io : Io) (elems : List Tree) (hlen : elems.length = 8) (k
   | ok p =>
     obtain ⟨i, ks'⟩ := p
     have hi := next_lt ks _ i ks' hnext
-    simp only [Lookup.len] at hi
+    simp only [Lookup.len, List.length_cons, List.length_nil] at hi
     have hget : elems[i]? = some elems[i] := List.getElem?_eq_getElem (by omega)
     have hi' : i = 0 ∨ i = 1 ∨ i = 2 ∨ i = 3 ∨ i = 4 ∨ i = 5 ∨ i = 6 ∨ i = 7 := by omega
     rcases hi' with rfl | rfl | rfl | rfl | rfl | rfl | rfl | rfl
@@ -1144,7 +1145,7 @@ theorem tuple8_ref_tie (io : Io) (elems : List Tree) (hlen : elems.length = 8) (
   | ok p =>
     obtain ⟨i, ks'⟩ := p
     have hi := next_lt ks _ i ks' hnext
-    simp only [Lookup.len] at hi
+    simp only [Lookup.len, List.length_cons, List.length_nil] at hi
     have hget : elems[i]? = some elems[i] := List.getElem?_eq_getElem (by omega)
     have hi' : i = 0 ∨ i = 1 ∨ i = 2 ∨ i = 3 ∨ i = 4 ∨ i = 5 ∨ i = 6 ∨ i = 7 := by omega
     rcases hi' with rfl | rfl | rfl | rfl | rfl | rfl | rfl | rfl
@@ -1214,7 +1215,7 @@ theorem tuple8_mut_tie (io : Io) (elems : List Tree) (hlen : elems.length = 8) (
   | ok p =>
     obtain ⟨i, ks'⟩ := p
     have hi := next_lt ks _ i ks' hnext
-    simp only [Lookup.len] at hi
+    simp only [Lookup.len, List.length_cons, List.length_nil] at hi
     have hget : elems[i]? = some elems[i] := List.getElem?_eq_getElem (by omega)
     have hi' : i = 0 ∨ i = 1 ∨ i = 2 ∨ i = 3 ∨ i = 4 ∨ i = 5 ∨ i = 6 ∨ i = 7 := by omega
     rcases hi' with rfl | rfl | rfl | rfl | rfl | rfl | rfl | rfl
@@ -1267,6 +1268,345 @@ theorem tuple8_mut_tie (io : Io) (elems : List Tree) (hlen : elems.length = 8) (
       | ok u => cases u; rfl
       | error e => simp [anyOfGen, Except.mapError, increment_tie]
 
+theorem Range_ser_tie (io : Io) (elems : List Tree) (hlen : elems.length = 2) (ks : KeySrc)
+    (hnp : ∀ s, ks.next (.named ["start", "end"]) ≠ .error (.panic s))
+    (c0 : Tree → KeySrc → Except (Error Unit) Nat)
+    (h0 : ∀ t ks, resOfGen (c0 t ks) = (t.walk io .ser ks).res) :
+    ∃ r, Impls.Range.serialize_by_key keysNextM c0 elems ks = .val r ∧
+      resOfGen r = (Tree.walk io .ser (.node false none (.named ["start", "end"]) (plainFields elems)) ks).res := by
+  simp only [Impls.Range.serialize_by_key, Impls.RANGE_LOOKUP, Impls.KeyLookup.numbered, nonZeroNew, keysNextM, lookupOfGen, Tree.walk]
+  try simp +decide only [↓reduceIte]
+  cases hnext : ks.next (.named ["start", "end"]) with
+  | error e =>
+    cases e with
+    | panic s => exact absurd hnext (hnp s)
+    | _ => exact ⟨_, rfl, by simp [resOfGen, anyOfGen, anyView, travToGen, travOfGen]⟩
+  | ok p =>
+    obtain ⟨i, ks'⟩ := p
+    have hi := next_lt ks _ i ks' hnext
+    simp only [Lookup.len, List.length_cons, List.length_nil] at hi
+    have hget : elems[i]? = some elems[i] := List.getElem?_eq_getElem (by omega)
+    have hi' : i = 0 ∨ i = 1 := by omega
+    rcases hi' with rfl | rfl
+    · simp only [applyAtR, hget, goFld_plain io .ser elems _ ks' _ hget]
+      exact ⟨_, rfl, by rw [resOfGen_incr, h0]⟩
+    · simp only [applyAtR, hget, goFld_plain io .ser elems _ ks' _ hget]
+      exact ⟨_, rfl, by rw [resOfGen_incr, h0]⟩
+
+theorem Range_de_tie (io : Io) (elems : List Tree) (hlen : elems.length = 2) (ks : KeySrc)
+    (hnp : ∀ s, ks.next (.named ["start", "end"]) ≠ .error (.panic s))
+    (c0 : Tree → KeySrc → Except (Error Unit) Nat × Tree)
+    (h0 : ∀ t ks, resOfGen (c0 t ks).1 = (t.walk io .de ks).res ∧ (c0 t ks).2 = (t.walk io .de ks).tree) :
+    ∃ es r, Impls.Range.deserialize_by_key keysNextM c0 elems ks = .val (es, r) ∧
+      resOfGen r = (Tree.walk io .de (.node false none (.named ["start", "end"]) (plainFields elems)) ks).res ∧
+      Tree.node false none (.named ["start", "end"]) (plainFields es) = (Tree.walk io .de (.node false none (.named ["start", "end"]) (plainFields elems)) ks).tree := by
+  simp only [Impls.Range.deserialize_by_key, Impls.RANGE_LOOKUP, Impls.KeyLookup.numbered, nonZeroNew, keysNextM, lookupOfGen, Tree.walk]
+  try simp +decide only [↓reduceIte]
+  cases hnext : ks.next (.named ["start", "end"]) with
+  | error e =>
+    cases e with
+    | panic s => exact absurd hnext (hnp s)
+    | _ => exact ⟨_, _, rfl, by simp [resOfGen, anyOfGen, anyView, travToGen, travOfGen], rfl⟩
+  | ok p =>
+    obtain ⟨i, ks'⟩ := p
+    have hi := next_lt ks _ i ks' hnext
+    simp only [Lookup.len, List.length_cons, List.length_nil] at hi
+    have hget : elems[i]? = some elems[i] := List.getElem?_eq_getElem (by omega)
+    have hi' : i = 0 ∨ i = 1 := by omega
+    rcases hi' with rfl | rfl
+    · simp only [applyAt, hget, goFld_plain io .de elems _ ks' _ hget]
+      exact ⟨_, _, rfl, by rw [resOfGen_incr, (h0 _ _).1], by rw [(h0 _ _).2]⟩
+    · simp only [applyAt, hget, goFld_plain io .de elems _ ks' _ hget]
+      exact ⟨_, _, rfl, by rw [resOfGen_incr, (h0 _ _).1], by rw [(h0 _ _).2]⟩
+
+theorem Range_ref_tie (io : Io) (elems : List Tree) (hlen : elems.length = 2) (ks : KeySrc)
+    (hnp : ∀ s, ks.next (.named ["start", "end"]) ≠ .error (.panic s))
+    (c0 : Tree → KeySrc → Except Traversal Unit)
+    (h0 : ∀ t ks, anyOfGen (c0 t ks) = anyView (t.walk io .refAny ks).res) :
+    ∃ r, Impls.Range.ref_any_by_key keysNextM c0 elems ks = .val r ∧
+      anyOfGen r = anyView (Tree.walk io .refAny (.node false none (.named ["start", "end"]) (plainFields elems)) ks).res := by
+  simp only [Impls.Range.ref_any_by_key, Impls.RANGE_LOOKUP, Impls.KeyLookup.numbered, nonZeroNew, keysNextM, lookupOfGen, Tree.walk]
+  try simp +decide only [↓reduceIte]
+  cases hnext : ks.next (.named ["start", "end"]) with
+  | error e =>
+    cases e with
+    | panic s => exact absurd hnext (hnp s)
+    | _ => exact ⟨_, rfl, by simp [resOfGen, anyOfGen, anyView, travToGen, travOfGen]⟩
+  | ok p =>
+    obtain ⟨i, ks'⟩ := p
+    have hi := next_lt ks _ i ks' hnext
+    simp only [Lookup.len, List.length_cons, List.length_nil] at hi
+    have hget : elems[i]? = some elems[i] := List.getElem?_eq_getElem (by omega)
+    have hi' : i = 0 ∨ i = 1 := by omega
+    rcases hi' with rfl | rfl
+    · simp only [applyAtR, hget, goFld_plain io .refAny elems _ ks' _ hget]
+      refine ⟨_, rfl, ?_⟩
+      rw [anyView_incr, ← h0]
+      cases c0 elems[0] ks' with
+      | ok u => cases u; rfl
+      | error e => simp [anyOfGen, Except.mapError, increment_tie]
+    · simp only [applyAtR, hget, goFld_plain io .refAny elems _ ks' _ hget]
+      refine ⟨_, rfl, ?_⟩
+      rw [anyView_incr, ← h0]
+      cases c0 elems[1] ks' with
+      | ok u => cases u; rfl
+      | error e => simp [anyOfGen, Except.mapError, increment_tie]
+
+theorem Range_mut_tie (io : Io) (elems : List Tree) (hlen : elems.length = 2) (ks : KeySrc)
+    (hnp : ∀ s, ks.next (.named ["start", "end"]) ≠ .error (.panic s))
+    (c0 : Tree → KeySrc → Except Traversal Unit × Tree)
+    (h0 : ∀ t ks, anyOfGen (c0 t ks).1 = anyView (t.walk io .mutAny ks).res ∧ (c0 t ks).2 = (t.walk io .mutAny ks).tree) :
+    ∃ es r, Impls.Range.mut_any_by_key keysNextM c0 elems ks = .val (es, r) ∧
+      anyOfGen r = anyView (Tree.walk io .mutAny (.node false none (.named ["start", "end"]) (plainFields elems)) ks).res ∧
+      Tree.node false none (.named ["start", "end"]) (plainFields es) = (Tree.walk io .mutAny (.node false none (.named ["start", "end"]) (plainFields elems)) ks).tree := by
+  simp only [Impls.Range.mut_any_by_key, Impls.RANGE_LOOKUP, Impls.KeyLookup.numbered, nonZeroNew, keysNextM, lookupOfGen, Tree.walk]
+  try simp +decide only [↓reduceIte]
+  cases hnext : ks.next (.named ["start", "end"]) with
+  | error e =>
+    cases e with
+    | panic s => exact absurd hnext (hnp s)
+    | _ => exact ⟨_, _, rfl, by simp [resOfGen, anyOfGen, anyView, travToGen, travOfGen], rfl⟩
+  | ok p =>
+    obtain ⟨i, ks'⟩ := p
+    have hi := next_lt ks _ i ks' hnext
+    simp only [Lookup.len, List.length_cons, List.length_nil] at hi
+    have hget : elems[i]? = some elems[i] := List.getElem?_eq_getElem (by omega)
+    have hi' : i = 0 ∨ i = 1 := by omega
+    rcases hi' with rfl | rfl
+    · simp only [applyAt, hget, goFld_plain io .mutAny elems _ ks' _ hget]
+      refine ⟨_, _, rfl, ?_, by rw [(h0 _ _).2]⟩
+      rw [anyView_incr, ← (h0 _ _).1]
+      cases (c0 elems[0] ks').1 with
+      | ok u => cases u; rfl
+      | error e => simp [anyOfGen, Except.mapError, increment_tie]
+    · simp only [applyAt, hget, goFld_plain io .mutAny elems _ ks' _ hget]
+      refine ⟨_, _, rfl, ?_, by rw [(h0 _ _).2]⟩
+      rw [anyView_incr, ← (h0 _ _).1]
+      cases (c0 elems[1] ks').1 with
+      | ok u => cases u; rfl
+      | error e => simp [anyOfGen, Except.mapError, increment_tie]
+
+theorem RangeFrom_ser_tie (io : Io) (elems : List Tree) (hlen : elems.length = 1) (ks : KeySrc)
+    (hnp : ∀ s, ks.next (.named ["start"]) ≠ .error (.panic s))
+    (c0 : Tree → KeySrc → Except (Error Unit) Nat)
+    (h0 : ∀ t ks, resOfGen (c0 t ks) = (t.walk io .ser ks).res) :
+    ∃ r, Impls.RangeFrom.serialize_by_key keysNextM c0 elems ks = .val r ∧
+      resOfGen r = (Tree.walk io .ser (.node false none (.named ["start"]) (plainFields elems)) ks).res := by
+  simp only [Impls.RangeFrom.serialize_by_key, Impls.RANGE_FROM_LOOKUP, Impls.KeyLookup.numbered, nonZeroNew, keysNextM, lookupOfGen, Tree.walk]
+  try simp +decide only [↓reduceIte]
+  cases hnext : ks.next (.named ["start"]) with
+  | error e =>
+    cases e with
+    | panic s => exact absurd hnext (hnp s)
+    | _ => exact ⟨_, rfl, by simp [resOfGen, anyOfGen, anyView, travToGen, travOfGen]⟩
+  | ok p =>
+    obtain ⟨i, ks'⟩ := p
+    have hi := next_lt ks _ i ks' hnext
+    simp only [Lookup.len, List.length_cons, List.length_nil] at hi
+    have hget : elems[i]? = some elems[i] := List.getElem?_eq_getElem (by omega)
+    obtain rfl : i = 0 := by omega
+    simp only [applyAtR, hget, goFld_plain io .ser elems _ ks' _ hget]
+    exact ⟨_, rfl, by rw [resOfGen_incr, h0]⟩
+
+theorem RangeFrom_de_tie (io : Io) (elems : List Tree) (hlen : elems.length = 1) (ks : KeySrc)
+    (hnp : ∀ s, ks.next (.named ["start"]) ≠ .error (.panic s))
+    (c0 : Tree → KeySrc → Except (Error Unit) Nat × Tree)
+    (h0 : ∀ t ks, resOfGen (c0 t ks).1 = (t.walk io .de ks).res ∧ (c0 t ks).2 = (t.walk io .de ks).tree) :
+    ∃ es r, Impls.RangeFrom.deserialize_by_key keysNextM c0 elems ks = .val (es, r) ∧
+      resOfGen r = (Tree.walk io .de (.node false none (.named ["start"]) (plainFields elems)) ks).res ∧
+      Tree.node false none (.named ["start"]) (plainFields es) = (Tree.walk io .de (.node false none (.named ["start"]) (plainFields elems)) ks).tree := by
+  simp only [Impls.RangeFrom.deserialize_by_key, Impls.RANGE_FROM_LOOKUP, Impls.KeyLookup.numbered, nonZeroNew, keysNextM, lookupOfGen, Tree.walk]
+  try simp +decide only [↓reduceIte]
+  cases hnext : ks.next (.named ["start"]) with
+  | error e =>
+    cases e with
+    | panic s => exact absurd hnext (hnp s)
+    | _ => exact ⟨_, _, rfl, by simp [resOfGen, anyOfGen, anyView, travToGen, travOfGen], rfl⟩
+  | ok p =>
+    obtain ⟨i, ks'⟩ := p
+    have hi := next_lt ks _ i ks' hnext
+    simp only [Lookup.len, List.length_cons, List.length_nil] at hi
+    have hget : elems[i]? = some elems[i] := List.getElem?_eq_getElem (by omega)
+    obtain rfl : i = 0 := by omega
+    simp only [applyAt, hget, goFld_plain io .de elems _ ks' _ hget]
+    exact ⟨_, _, rfl, by rw [resOfGen_incr, (h0 _ _).1], by rw [(h0 _ _).2]⟩
+
+theorem RangeFrom_ref_tie (io : Io) (elems : List Tree) (hlen : elems.length = 1) (ks : KeySrc)
+    (hnp : ∀ s, ks.next (.named ["start"]) ≠ .error (.panic s))
+    (c0 : Tree → KeySrc → Except Traversal Unit)
+    (h0 : ∀ t ks, anyOfGen (c0 t ks) = anyView (t.walk io .refAny ks).res) :
+    ∃ r, Impls.RangeFrom.ref_any_by_key keysNextM c0 elems ks = .val r ∧
+      anyOfGen r = anyView (Tree.walk io .refAny (.node false none (.named ["start"]) (plainFields elems)) ks).res := by
+  simp only [Impls.RangeFrom.ref_any_by_key, Impls.RANGE_FROM_LOOKUP, Impls.KeyLookup.numbered, nonZeroNew, keysNextM, lookupOfGen, Tree.walk]
+  try simp +decide only [↓reduceIte]
+  cases hnext : ks.next (.named ["start"]) with
+  | error e =>
+    cases e with
+    | panic s => exact absurd hnext (hnp s)
+    | _ => exact ⟨_, rfl, by simp [resOfGen, anyOfGen, anyView, travToGen, travOfGen]⟩
+  | ok p =>
+    obtain ⟨i, ks'⟩ := p
+    have hi := next_lt ks _ i ks' hnext
+    simp only [Lookup.len, List.length_cons, List.length_nil] at hi
+    have hget : elems[i]? = some elems[i] := List.getElem?_eq_getElem (by omega)
+    obtain rfl : i = 0 := by omega
+    simp only [applyAtR, hget, goFld_plain io .refAny elems _ ks' _ hget]
+    refine ⟨_, rfl, ?_⟩
+    rw [anyView_incr, ← h0]
+    cases c0 elems[0] ks' with
+    | ok u => cases u; rfl
+    | error e => simp [anyOfGen, Except.mapError, increment_tie]
+
+theorem RangeFrom_mut_tie (io : Io) (elems : List Tree) (hlen : elems.length = 1) (ks : KeySrc)
+    (hnp : ∀ s, ks.next (.named ["start"]) ≠ .error (.panic s))
+    (c0 : Tree → KeySrc → Except Traversal Unit × Tree)
+    (h0 : ∀ t ks, anyOfGen (c0 t ks).1 = anyView (t.walk io .mutAny ks).res ∧ (c0 t ks).2 = (t.walk io .mutAny ks).tree) :
+    ∃ es r, Impls.RangeFrom.mut_any_by_key keysNextM c0 elems ks = .val (es, r) ∧
+      anyOfGen r = anyView (Tree.walk io .mutAny (.node false none (.named ["start"]) (plainFields elems)) ks).res ∧
+      Tree.node false none (.named ["start"]) (plainFields es) = (Tree.walk io .mutAny (.node false none (.named ["start"]) (plainFields elems)) ks).tree := by
+  simp only [Impls.RangeFrom.mut_any_by_key, Impls.RANGE_FROM_LOOKUP, Impls.KeyLookup.numbered, nonZeroNew, keysNextM, lookupOfGen, Tree.walk]
+  try simp +decide only [↓reduceIte]
+  cases hnext : ks.next (.named ["start"]) with
+  | error e =>
+    cases e with
+    | panic s => exact absurd hnext (hnp s)
+    | _ => exact ⟨_, _, rfl, by simp [resOfGen, anyOfGen, anyView, travToGen, travOfGen], rfl⟩
+  | ok p =>
+    obtain ⟨i, ks'⟩ := p
+    have hi := next_lt ks _ i ks' hnext
+    simp only [Lookup.len, List.length_cons, List.length_nil] at hi
+    have hget : elems[i]? = some elems[i] := List.getElem?_eq_getElem (by omega)
+    obtain rfl : i = 0 := by omega
+    simp only [applyAt, hget, goFld_plain io .mutAny elems _ ks' _ hget]
+    refine ⟨_, _, rfl, ?_, by rw [(h0 _ _).2]⟩
+    rw [anyView_incr, ← (h0 _ _).1]
+    cases (c0 elems[0] ks').1 with
+    | ok u => cases u; rfl
+    | error e => simp [anyOfGen, Except.mapError, increment_tie]
+
+theorem RangeTo_ser_tie (io : Io) (elems : List Tree) (hlen : elems.length = 1) (ks : KeySrc)
+    (hnp : ∀ s, ks.next (.named ["end"]) ≠ .error (.panic s))
+    (c0 : Tree → KeySrc → Except (Error Unit) Nat)
+    (h0 : ∀ t ks, resOfGen (c0 t ks) = (t.walk io .ser ks).res) :
+    ∃ r, Impls.RangeTo.serialize_by_key keysNextM c0 elems ks = .val r ∧
+      resOfGen r = (Tree.walk io .ser (.node false none (.named ["end"]) (plainFields elems)) ks).res := by
+  simp only [Impls.RangeTo.serialize_by_key, Impls.RANGE_TO_LOOKUP, Impls.KeyLookup.numbered, nonZeroNew, keysNextM, lookupOfGen, Tree.walk]
+  try simp +decide only [↓reduceIte]
+  cases hnext : ks.next (.named ["end"]) with
+  | error e =>
+    cases e with
+    | panic s => exact absurd hnext (hnp s)
+    | _ => exact ⟨_, rfl, by simp [resOfGen, anyOfGen, anyView, travToGen, travOfGen]⟩
+  | ok p =>
+    obtain ⟨i, ks'⟩ := p
+    have hi := next_lt ks _ i ks' hnext
+    simp only [Lookup.len, List.length_cons, List.length_nil] at hi
+    have hget : elems[i]? = some elems[i] := List.getElem?_eq_getElem (by omega)
+    obtain rfl : i = 0 := by omega
+    simp only [applyAtR, hget, goFld_plain io .ser elems _ ks' _ hget]
+    exact ⟨_, rfl, by rw [resOfGen_incr, h0]⟩
+
+theorem RangeTo_de_tie (io : Io) (elems : List Tree) (hlen : elems.length = 1) (ks : KeySrc)
+    (hnp : ∀ s, ks.next (.named ["end"]) ≠ .error (.panic s))
+    (c0 : Tree → KeySrc → Except (Error Unit) Nat × Tree)
+    (h0 : ∀ t ks, resOfGen (c0 t ks).1 = (t.walk io .de ks).res ∧ (c0 t ks).2 = (t.walk io .de ks).tree) :
+    ∃ es r, Impls.RangeTo.deserialize_by_key keysNextM c0 elems ks = .val (es, r) ∧
+      resOfGen r = (Tree.walk io .de (.node false none (.named ["end"]) (plainFields elems)) ks).res ∧
+      Tree.node false none (.named ["end"]) (plainFields es) = (Tree.walk io .de (.node false none (.named ["end"]) (plainFields elems)) ks).tree := by
+  simp only [Impls.RangeTo.deserialize_by_key, Impls.RANGE_TO_LOOKUP, Impls.KeyLookup.numbered, nonZeroNew, keysNextM, lookupOfGen, Tree.walk]
+  try simp +decide only [↓reduceIte]
+  cases hnext : ks.next (.named ["end"]) with
+  | error e =>
+    cases e with
+    | panic s => exact absurd hnext (hnp s)
+    | _ => exact ⟨_, _, rfl, by simp [resOfGen, anyOfGen, anyView, travToGen, travOfGen], rfl⟩
+  | ok p =>
+    obtain ⟨i, ks'⟩ := p
+    have hi := next_lt ks _ i ks' hnext
+    simp only [Lookup.len, List.length_cons, List.length_nil] at hi
+    have hget : elems[i]? = some elems[i] := List.getElem?_eq_getElem (by omega)
+    obtain rfl : i = 0 := by omega
+    simp only [applyAt, hget, goFld_plain io .de elems _ ks' _ hget]
+    exact ⟨_, _, rfl, by rw [resOfGen_incr, (h0 _ _).1], by rw [(h0 _ _).2]⟩
+
+theorem RangeTo_ref_tie (io : Io) (elems : List Tree) (hlen : elems.length = 1) (ks : KeySrc)
+    (hnp : ∀ s, ks.next (.named ["end"]) ≠ .error (.panic s))
+    (c0 : Tree → KeySrc → Except Traversal Unit)
+    (h0 : ∀ t ks, anyOfGen (c0 t ks) = anyView (t.walk io .refAny ks).res) :
+    ∃ r, Impls.RangeTo.ref_any_by_key keysNextM c0 elems ks = .val r ∧
+      anyOfGen r = anyView (Tree.walk io .refAny (.node false none (.named ["end"]) (plainFields elems)) ks).res := by
+  simp only [Impls.RangeTo.ref_any_by_key, Impls.RANGE_TO_LOOKUP, Impls.KeyLookup.numbered, nonZeroNew, keysNextM, lookupOfGen, Tree.walk]
+  try simp +decide only [↓reduceIte]
+  cases hnext : ks.next (.named ["end"]) with
+  | error e =>
+    cases e with
+    | panic s => exact absurd hnext (hnp s)
+    | _ => exact ⟨_, rfl, by simp [resOfGen, anyOfGen, anyView, travToGen, travOfGen]⟩
+  | ok p =>
+    obtain ⟨i, ks'⟩ := p
+    have hi := next_lt ks _ i ks' hnext
+    simp only [Lookup.len, List.length_cons, List.length_nil] at hi
+    have hget : elems[i]? = some elems[i] := List.getElem?_eq_getElem (by omega)
+    obtain rfl : i = 0 := by omega
+    simp only [applyAtR, hget, goFld_plain io .refAny elems _ ks' _ hget]
+    refine ⟨_, rfl, ?_⟩
+    rw [anyView_incr, ← h0]
+    cases c0 elems[0] ks' with
+    | ok u => cases u; rfl
+    | error e => simp [anyOfGen, Except.mapError, increment_tie]
+
+theorem RangeTo_mut_tie (io : Io) (elems : List Tree) (hlen : elems.length = 1) (ks : KeySrc)
+    (hnp : ∀ s, ks.next (.named ["end"]) ≠ .error (.panic s))
+    (c0 : Tree → KeySrc → Except Traversal Unit × Tree)
+    (h0 : ∀ t ks, anyOfGen (c0 t ks).1 = anyView (t.walk io .mutAny ks).res ∧ (c0 t ks).2 = (t.walk io .mutAny ks).tree) :
+    ∃ es r, Impls.RangeTo.mut_any_by_key keysNextM c0 elems ks = .val (es, r) ∧
+      anyOfGen r = anyView (Tree.walk io .mutAny (.node false none (.named ["end"]) (plainFields elems)) ks).res ∧
+      Tree.node false none (.named ["end"]) (plainFields es) = (Tree.walk io .mutAny (.node false none (.named ["end"]) (plainFields elems)) ks).tree := by
+  simp only [Impls.RangeTo.mut_any_by_key, Impls.RANGE_TO_LOOKUP, Impls.KeyLookup.numbered, nonZeroNew, keysNextM, lookupOfGen, Tree.walk]
+  try simp +decide only [↓reduceIte]
+  cases hnext : ks.next (.named ["end"]) with
+  | error e =>
+    cases e with
+    | panic s => exact absurd hnext (hnp s)
+    | _ => exact ⟨_, _, rfl, by simp [resOfGen, anyOfGen, anyView, travToGen, travOfGen], rfl⟩
+  | ok p =>
+    obtain ⟨i, ks'⟩ := p
+    have hi := next_lt ks _ i ks' hnext
+    simp only [Lookup.len, List.length_cons, List.length_nil] at hi
+    have hget : elems[i]? = some elems[i] := List.getElem?_eq_getElem (by omega)
+    obtain rfl : i = 0 := by omega
+    simp only [applyAt, hget, goFld_plain io .mutAny elems _ ks' _ hget]
+    refine ⟨_, _, rfl, ?_, by rw [(h0 _ _).2]⟩
+    rw [anyView_incr, ← (h0 _ _).1]
+    cases (c0 elems[0] ks').1 with
+    | ok u => cases u; rfl
+    | error e => simp [anyOfGen, Except.mapError, increment_tie]
+
+theorem RangeInclusive_ser_tie (io : Io) (elems : List Tree) (hlen : elems.length = 2) (ks : KeySrc)
+    (hnp : ∀ s, ks.next (.named ["start", "end"]) ≠ .error (.panic s))
+    (c0 : Tree → KeySrc → Except (Error Unit) Nat)
+    (h0 : ∀ t ks, resOfGen (c0 t ks) = (t.walk io .ser ks).res) :
+    ∃ r, Impls.RangeInclusive.serialize_by_key keysNextM c0 elems ks = .val r ∧
+      resOfGen r = (Tree.walk io .ser (.node false none (.named ["start", "end"]) (plainFields elems)) ks).res := by
+  simp only [Impls.RangeInclusive.serialize_by_key, Impls.RANGE_LOOKUP, Impls.KeyLookup.numbered, nonZeroNew, keysNextM, lookupOfGen, Tree.walk]
+  try simp +decide only [↓reduceIte]
+  cases hnext : ks.next (.named ["start", "end"]) with
+  | error e =>
+    cases e with
+    | panic s => exact absurd hnext (hnp s)
+    | _ => exact ⟨_, rfl, by simp [resOfGen, anyOfGen, anyView, travToGen, travOfGen]⟩
+  | ok p =>
+    obtain ⟨i, ks'⟩ := p
+    have hi := next_lt ks _ i ks' hnext
+    simp only [Lookup.len, List.length_cons, List.length_nil] at hi
+    have hget : elems[i]? = some elems[i] := List.getElem?_eq_getElem (by omega)
+    have hi' : i = 0 ∨ i = 1 := by omega
+    rcases hi' with rfl | rfl
+    · simp only [applyAtR, hget, goFld_plain io .ser elems _ ks' _ hget]
+      exact ⟨_, rfl, by rw [resOfGen_incr, h0]⟩
+    · simp only [applyAtR, hget, goFld_plain io .ser elems _ ks' _ hget]
+      exact ⟨_, rfl, by rw [resOfGen_incr, h0]⟩
+
 /-- all tuple value-level ties as one statement -/
 def TupleValueTies : Prop :=
   type_of% @tuple1_ser_tie ∧
@@ -1300,9 +1640,22 @@ def TupleValueTies : Prop :=
   type_of% @tuple8_ser_tie ∧
   type_of% @tuple8_de_tie ∧
   type_of% @tuple8_ref_tie ∧
-  type_of% @tuple8_mut_tie
+  type_of% @tuple8_mut_tie ∧
+  type_of% @Range_ser_tie ∧
+  type_of% @Range_de_tie ∧
+  type_of% @Range_ref_tie ∧
+  type_of% @Range_mut_tie ∧
+  type_of% @RangeFrom_ser_tie ∧
+  type_of% @RangeFrom_de_tie ∧
+  type_of% @RangeFrom_ref_tie ∧
+  type_of% @RangeFrom_mut_tie ∧
+  type_of% @RangeTo_ser_tie ∧
+  type_of% @RangeTo_de_tie ∧
+  type_of% @RangeTo_ref_tie ∧
+  type_of% @RangeTo_mut_tie ∧
+  type_of% @RangeInclusive_ser_tie
 
 theorem tupleValueTies : TupleValueTies :=
-  ⟨@tuple1_ser_tie, @tuple1_de_tie, @tuple1_ref_tie, @tuple1_mut_tie, @tuple2_ser_tie, @tuple2_de_tie, @tuple2_ref_tie, @tuple2_mut_tie, @tuple3_ser_tie, @tuple3_de_tie, @tuple3_ref_tie, @tuple3_mut_tie, @tuple4_ser_tie, @tuple4_de_tie, @tuple4_ref_tie, @tuple4_mut_tie, @tuple5_ser_tie, @tuple5_de_tie, @tuple5_ref_tie, @tuple5_mut_tie, @tuple6_ser_tie, @tuple6_de_tie, @tuple6_ref_tie, @tuple6_mut_tie, @tuple7_ser_tie, @tuple7_de_tie, @tuple7_ref_tie, @tuple7_mut_tie, @tuple8_ser_tie, @tuple8_de_tie, @tuple8_ref_tie, @tuple8_mut_tie⟩
+  ⟨@tuple1_ser_tie, @tuple1_de_tie, @tuple1_ref_tie, @tuple1_mut_tie, @tuple2_ser_tie, @tuple2_de_tie, @tuple2_ref_tie, @tuple2_mut_tie, @tuple3_ser_tie, @tuple3_de_tie, @tuple3_ref_tie, @tuple3_mut_tie, @tuple4_ser_tie, @tuple4_de_tie, @tuple4_ref_tie, @tuple4_mut_tie, @tuple5_ser_tie, @tuple5_de_tie, @tuple5_ref_tie, @tuple5_mut_tie, @tuple6_ser_tie, @tuple6_de_tie, @tuple6_ref_tie, @tuple6_mut_tie, @tuple7_ser_tie, @tuple7_de_tie, @tuple7_ref_tie, @tuple7_mut_tie, @tuple8_ser_tie, @tuple8_de_tie, @tuple8_ref_tie, @tuple8_mut_tie, @Range_ser_tie, @Range_de_tie, @Range_ref_tie, @Range_mut_tie, @RangeFrom_ser_tie, @RangeFrom_de_tie, @RangeFrom_ref_tie, @RangeFrom_mut_tie, @RangeTo_ser_tie, @RangeTo_de_tie, @RangeTo_ref_tie, @RangeTo_mut_tie, @RangeInclusive_ser_tie⟩
 
 end MiniconfVerif.GenTie
